@@ -336,3 +336,22 @@ prop('C08',
      level_text=("Round-trip and validity properties over generated bitmaps with an independent encoder/strict parser, under ASan/UBSan; complete for widths 0..70 at small heights, sampled beyond."),
      technique="round-trip property-based testing against an independent BMP encoder/strict parser (rapidcheck + libFuzzer), dimension sweep",
      design_ref="DESIGN.md section 3, C08")
+
+prop('C09',
+     quick=dict(sweep=True, pbt=(12000, 200, 10), fuzz=(30000, 200, 4)),
+     thorough=dict(sweep=True, pbt=(500000, 200, 11), fuzz=(1500000, 200, 4), stage_timeout=3400),
+     floor=dict(quick=15000, thorough=500000), alloc_cap_mb=128,
+     rule=("Pictures decoded from a tape: height 32*k (k 0..8, thorough ..64), 256 pseudo-random colours (one in six grey so red==blue), pseudo-random pixels, built with the factory in BOTH scan-line "
+           "orientations. Oracle per picture and orientation: WriteCustomTileset bytes == an independent description of the format (PBMP + 1068+32h, head 0x14 {2,32,h,8,8}, PPAL 1048, head 4 {1}, "
+           "data 1024 with blue-green-red-alpha entries, data 32h with rows top-down) and identical for both orientations; the caller's bitmap is unchanged; ReadTileset of those bytes gives the same "
+           "logical rows and colours in top-down orientation; ReadTileset of the picture stored as a standard bitmap gives the same picture in the stored orientation. Signature cases: random "
+           "prefixes / PBMP / one-bit neighbours / 'BM' at stream positions 0 and > 0: PeekIsCustomTileset <=> the next four bytes are PBMP and Position() unchanged (also when it throws on a "
+           "short stream). Violating pictures (depth 1/4, width != 32, height not a multiple of 32) are refused by save (nothing written) and by load; custom byte strings with one validated header "
+           "field replaced by boundary values are refused. Sweep: heights 0..12 tiles (thorough 0..64); all 32 one-bit neighbours of PBMP at two positions; 18 header fields x 20 values. "
+           "Non-trivial = height >= 64 with red != blue somewhere, every signature/violating/perturbed case."),
+     sweep_what="heights 0..12 (thorough ..64) tiles x both orientations; all one-bit neighbours of the signature; every header field x 20 boundary values; violating pictures",
+     assumptions=["no game file is available offline: the PBMP total length 1068+32h is pinned from the format's constants as this tree writes it", "the flags field and depth values whose low 16 bits are 8 are not claimed either way"],
+     title="Tilesets load to the same picture from custom and standard formats",
+     level_text=("Round-trip/differential testing of both tileset encodings against an independent encoder of the custom format, over generated pictures; exploration."),
+     technique="round-trip + differential property-based testing against an independent format encoder (rapidcheck + libFuzzer), signature and header-field sweeps",
+     design_ref="DESIGN.md section 3, C09")
